@@ -552,6 +552,11 @@ fn replace_range(doc: &mut String, rng: lsp::Range, raw_new: &str) -> STDRESULT 
         }
         curr_line += 1;
     }
+    // a range that ends at the start of the row behind the last line ends at the end of the text
+    if found_start && !found_end && rng.end.line==curr_line && rng.end.character==0 {
+        end_char = u32::min(end_char,doc.len() as u32);
+        found_end = true;
+    }
     if found_start && found_end {
         doc.replace_range(start_char as usize..end_char as usize,&new);
         return Ok(());
